@@ -30,6 +30,11 @@ def run(prog, rep):
     cd = Codecs(prog)
     cd.flag_errors(rep)
     rep.attempt(size_identity, prog, cd, rep, with_consumed=False)
+    # .. which identifies len(map) with len(items): true only while the two lists are mutated pairwise on every path
+    from .c01 import equivalence_discharge
+    equivalence_discharge(prog, cd, rep)
+    # add_block places the block at the offset of the slot it takes over (the end of the data) and re-points the later slots
+    rep.attempt(ct.check_c02, rep)
     rep.attempt(lambda: M.parse_on_enter(ct, rep))
     rep.attempt(lambda: M.flush_on_exit(ct, rep))
     # every table entry is exactly ENT bytes only if the comment field is exactly 256 bytes
